@@ -15,7 +15,7 @@ from . import common as C
 from . import runtime as R
 
 DRIVER = "acq_runtime"
-COSIM_CLASSES = ("single", "two", "mon", "latemon", "holdmon", "abort", "abortmon", "stofault", "camfault", "slowmon", "restart", "reconf", "remap")
+COSIM_CLASSES = ("single", "two", "mon", "latemon", "holdmon", "abort", "abortmon", "stofault", "camfault", "slowmon", "restart", "remap")
 
 
 def sig_of(msg):
